@@ -19,7 +19,9 @@ C("P8E0::mul", "src/p8e0/ops.rs", r"pub const fn mul\(self, other: Self\) -> Sel
 for _f, _t in (("div", "i32"), ("lldiv", "i64")):
     C(f"crate::{_f}", "src/lib.rs", rf"^const fn {_f}\(numer: {_t}, denom: {_t}\)",
       requires=["numer >= 0 && denom > 0"],
-      ensures=[f"|r: &({_t}, {_t})| r.0 == numer / denom && r.1 == numer % denom"],
+      # the postcondition (r == (numer / denom, numer % denom), numer == denom*q + r, 0 <= r < denom) is proved by
+      # Verus on the extracted text (lemmas/div_lemmas.rs); as a Kani attribute it would be re-asserted at every call
+      # site, which asks SAT to prove two divider circuits equal.  Only the precondition is woven for Kani.
       stubbed_in_b=True)
 
 # ---- decode / encode leaves ------------------------------------------------------------------------
